@@ -100,6 +100,8 @@ fn opts_for(variant: &str, rng: &mut Rng, tier: Tier) -> WsOpts {
         "imports" => {
             o.colliding_imports = rng.chance(600);
             o.import_cycles = rng.chance(200);
+            o.stdlib_named_helpers = rng.chance(500);
+            o.import_plain_names = rng.chance(500);
         }
         "venv" => {
             o.venv = true;
